@@ -9,7 +9,9 @@ Line protocol for C05 (symbol lookup).
 First op line: `kind obj | bp | jit | fixture <tag> <path>`.
 
 `kind obj` — an ELF64 object as the harness writes it (harness/src/gen/elf_syms.rs):
-    seg <off> <vaddr> <filesz>                       PT_LOAD program headers, in order
+    seg <off> <vaddr> <filesz> [<memsz>]             PT_LOAD program headers, in order
+    ehpcrel <sh_addr>                                `.eh_frame` is written with two `zR` CIEs and pc-relative sdata4
+                                                     pointers at section address sh_addr (the FDEs are the `fde` lines)
     sec <t|x|d|n> <addr> <size> <off>                sections in order (index = 1-based position):
                                                      t PROGBITS+AX, x NOBITS+AX, d PROGBITS+WA, n NOBITS+WA
     sym <s|d> <f|i|n|o> <N|u|a> <value> <size> <namehex|!> <demangledhex>
@@ -19,7 +21,8 @@ First op line: `kind obj | bp | jit | fixture <tag> <path>`.
     entry <addr>                                     e_entry
     fde <initial> <len>                              one FDE of .eh_frame (absolute pointers)
 `kind bp` — a Breakpad `.sym` file:   func <addr> <size> <namehex|!>  |  pub <addr> <namehex|!>   (`!` = not UTF-8)
-`kind jit` — a jitdump file:          load <codelen> <namehex>  |  other <bodylen>
+`kind jit` — a jitdump file:          load <codelen> <namehex>  |  other <bodylen>  |  dbg <n> (JIT_CODE_DEBUG_INFO with n
+                                      line entries)  |  be (big-endian file)  |  cut <k> (the last k bytes are missing)
 all kinds:  q <r|s|o> <addr> <rel|none|xwf>          a lookup; third field = the relative address this lookup
                                                      address stands for according to the generator
                                                      (`none`: it stands for none; `xwf`: outside the hypotheses)
@@ -113,6 +116,8 @@ structure ObjOps where
 def parseObjLine (o : ObjOps) (l : String) : ObjOps :=
   match words l with
   | ["seg", a, b, c] => { o with segs := o.segs ++ [(nat! a, nat! b, nat! c)] }
+  -- fifth field: `p_memsz` (> `p_filesz`); `object` reports the file range (offset, `p_filesz`), the code never reads it
+  | ["seg", a, b, c, _] => { o with segs := o.segs ++ [(nat! a, nat! b, nat! c)] }
   | ["sec", k, a, b, c] => { o with secs := o.secs ++ [(k, nat! a, nat! b, nat! c)] }
   | ["sym", t, ty, sh, v, sz, nm, dm] =>
     let r : RawSym := {
@@ -198,7 +203,30 @@ def modelBp (ls : List String) : List String :=
 
 /-- file layout of the records: header 40 bytes; record header 16 bytes; a JIT_CODE_LOAD body is 40 bytes of
 fixed fields, the NUL-terminated name, the code bytes -/
-def jitEntries (ls : List String) : List JitDump.Entry :=
+def jitRecSize (l : String) : Option Nat :=
+  match words l with
+  | ["load", len, nm] => some (16 + 40 + (hexName nm).length + 1 + nat! len)
+  | ["other", len] => some (16 + nat! len)
+  | ["dbg", n] => some (16 + 16 + 21 * nat! n)
+  | _ => none
+
+/-- `cut <k>`: the last k bytes of the file are missing. `from_reader` (jitdump.rs:71-111) stops at the first record
+that is not completely there (`next_record()` / `skip_next_record()` / `next_record_header()` return nothing), so
+exactly the record lines that lie completely inside the file count; other lines are kept. -/
+def jitKept (ls : List String) : List String :=
+  let total := 40 + (ls.filterMap jitRecSize).foldl (· + ·) 0
+  let cut := (ls.findSome? fun l => match words l with | ["cut", k] => k.toNat? | _ => none).getD 0
+  let limit := total - cut
+  let rec go (ls : List String) (off : Nat) (alive : Bool) : List String :=
+    match ls with
+    | [] => []
+    | l :: rest =>
+      match jitRecSize l with
+      | none => l :: go rest off alive
+      | some sz => if alive && off + sz ≤ limit then l :: go rest (off + sz) true else go rest off false
+  go ls 40 true
+
+def jitEntriesAll (ls : List String) : List JitDump.Entry :=
   let rec go (ls : List String) (off : Nat) (acc : List JitDump.Entry) : List JitDump.Entry :=
     match ls with
     | [] => acc.reverse
@@ -209,8 +237,12 @@ def jitEntries (ls : List String) : List JitDump.Entry :=
         let codeOff := off + 16 + 40 + name.length + 1
         go rest (codeOff + nat! len) (⟨codeOff, nat! len, some name⟩ :: acc)
       | ["other", len] => go rest (off + 16 + nat! len) acc
+      -- JIT_CODE_DEBUG_INFO (jitdump.rs:96-103): remembered for the next load's frames, no index entry
+      | ["dbg", n] => go rest (off + 16 + 16 + 21 * nat! n) acc
       | _ => go rest off acc
   go ls 40 []
+
+def jitEntries (ls : List String) : List JitDump.Entry := jitEntriesAll (jitKept ls)
 
 def modelJit (ls : List String) : List String :=
   match JitDump.buildIndex (jitEntries ls) with
@@ -528,7 +560,7 @@ def judgeEnum (kind : String) (o : ObjOps) (rest : List String) (en : List EnumI
   let expected : Option (List (Nat × Name)) :=
     if kind = "obj" then some (bestPerAddress (objCandidates o))
     else if kind = "bp" then some (bestPerAddress (bpCandidates rest))
-    else if kind = "jit" then some (jitExpectedEnum rest)
+    else if kind = "jit" then some (jitExpectedEnum (jitKept rest))
     else none
   match expected with
   | none => none
@@ -842,7 +874,7 @@ def judge (ops impl : List String) : Bool × String :=
     if als.length ≠ qs.length then (false, s!"{als.length} answer lines for {qs.length} queries") else
     let ends := if kind = "obj" then objKnownEnds o else []
     let bpRecs := if kind = "bp" then bpRecsOf rest else []
-    let jitRecs := if kind = "jit" then jitRecsOf rest else []
+    let jitRecs := if kind = "jit" then jitRecsOf (jitKept rest) else []
     match judgeEnum kind o rest en with
     | some why => (false, why)
     | none =>
